@@ -364,6 +364,10 @@ class DiscretizedSpace(TensorSpace):
                 inp, self.domain, out_dtype=self.dtype,
             )
             sampled = point_collocation(func, self.meshgrid, **kwargs)
+            # A function may return (a view of) its input; the new element
+            # must not share memory with the sampling grid
+            if any(np.shares_memory(sampled, m) for m in self.meshgrid):
+                sampled = sampled.copy()
             return self.element_type(
                 self, self.tspace.element(sampled, order=order)
             )
